@@ -294,6 +294,59 @@ func init() {
 				return true
 			})
 		}
+		// proposed repair of F-C02-901: onWrite decides "late" by Recs — a boolean defined from `… <= <entry>.Recs` BEFORE the
+		// statement that raises Recs, and used in the condition of an if — and rebuildIndex raises Recs to what it has scanned
+		// (an assignment to a Recs field inside rebuildIndex)
+		lateByRecs, rebuildRecs := false, false
+		if fd := funcDecl(fc, "cindex", "onWrite"); fd != nil {
+			lateIdent, latePos, recsAssignPos := "", token.NoPos, token.NoPos
+			ast.Inspect(fd.Body, func(n ast.Node) bool {
+				if as, ok := n.(*ast.AssignStmt); ok && len(as.Lhs) == 1 && len(as.Rhs) == 1 {
+					if id, ok := as.Lhs[0].(*ast.Ident); ok {
+						if be, ok := as.Rhs[0].(*ast.BinaryExpr); ok && (be.Op == token.LEQ || be.Op == token.LSS) {
+							if se, ok := be.Y.(*ast.SelectorExpr); ok && se.Sel.Name == "Recs" {
+								lateIdent, latePos = id.Name, as.Pos()
+							}
+						}
+					}
+					if se, ok := as.Lhs[0].(*ast.SelectorExpr); ok && se.Sel.Name == "Recs" && recsAssignPos == token.NoPos {
+						recsAssignPos = as.Pos()
+					}
+				}
+				return true
+			})
+			if lateIdent != "" {
+				used := false
+				ast.Inspect(fd.Body, func(n ast.Node) bool {
+					if is, ok := n.(*ast.IfStmt); ok {
+						ast.Inspect(is.Cond, func(m ast.Node) bool {
+							if id, ok := m.(*ast.Ident); ok && id.Name == lateIdent {
+								used = true
+							}
+							return true
+						})
+					}
+					return true
+				})
+				if used && recsAssignPos != token.NoPos && latePos < recsAssignPos {
+					lateByRecs = true
+				} else {
+					problem("cindex.onWrite: a boolean is derived from a comparison with Recs (%s) but it is not used in a condition, or it is computed after Recs has been raised (used=%v): unknown shape", lateIdent, used)
+				}
+			}
+		}
+		if fd := funcDecl(fc, "cindex", "rebuildIndex"); fd != nil {
+			ast.Inspect(fd.Body, func(n ast.Node) bool {
+				if as, ok := n.(*ast.AssignStmt); ok {
+					for _, l := range as.Lhs {
+						if se, ok := l.(*ast.SelectorExpr); ok && se.Sel.Name == "Recs" {
+							rebuildRecs = true
+						}
+					}
+				}
+				return true
+			})
+		}
 		// proposed repair of F86: sortedChunks.apply hands what lightFill has read now to a known entry that could not be filled
 		// before (an assignment to the Recs of an element of its argument)
 		refills := false
@@ -575,6 +628,9 @@ func init() {
 		l.p("/-- `onWrite` leaves the index alone for a notification that arrives late (`lastRec <= last.lastRec`), and never lowers `Recs` (proposed repair of F85); false: the late interval is merged behind the newer point and `Recs` goes down -/")
 		l.p("def onWriteSkipsLateNotification : Bool := %s", leanBool(skipsLate))
 		l.p("def onWriteRecsNeverDecrease : Bool := %s", leanBool(recsGuarded))
+		l.p("/-- `onWrite` decides that a notification is late by `Recs` as it was before the notification (`lastRec+1 <= Recs`), whatever `lastRec` of the entry is, and `rebuildIndex` raises `Recs` to the number of records it has scanned (proposed repair of F-C02-901); false: a late notification is recognised only while `last.lastRec > 0`, which a rebuild resets -/")
+		l.p("def onWriteLateByRecs : Bool := %s", leanBool(lateByRecs))
+		l.p("def rebuildRaisesRecs : Bool := %s", leanBool(rebuildRecs))
 		l.p("/-- `lightFill` treats `MaxTs > 0` as \"hull known\" -/")
 		l.p("def lightFillKnownMeansPositive : Bool := %s", leanBool(lightFillPositive))
 		l.p("/-- `maxRecsPerBlock`: records per index block -/")
